@@ -241,6 +241,29 @@ def run(chk):
                     chk.count((text, c))
                 if broken:
                     continue
+                if i < 3:
+                    # other spellings of the same call: a literally empty context "{}", and the pipe form
+                    head = "%" + ("Core." if tag == "Sanitize" else "Text.") + tag + "(" + args + ")"
+                    CtxTag.value = ""
+                    try:
+                        with impl.quiet_streams():
+                            want = pat.process(files[0])
+                            got_empty = impl.compile_template(head + "{}", reg()).process(files[0])
+                            piped = impl.compile_template("%Verif.Ctx()|" + head, reg())
+                            got_piped = []
+                            for c in ctxs:
+                                CtxTag.value = c
+                                got_piped.append(piped.process(files[1]))
+                    except Exception as e:
+                        chk.oracle_fail("%s: the literally empty context '{}' or the pipe form failed: %s: %s" % (tag, type(e).__name__, e),
+                                        dict(case, spelling=[head + "{}", "%Verif.Ctx()|" + head]))
+                    else:
+                        stats["literal_empty_context"] = stats.get("literal_empty_context", 0) + 1
+                        if got_empty != want:
+                            chk.oracle_fail("%s: '{}' gives %r, an empty value as context gives %r" % (tag, got_empty, want), dict(case, spelling=head + "{}"))
+                        if got_piped != obs:
+                            chk.oracle_fail("%s: pipe form gives %r, context form %r" % (tag, got_piped, obs), dict(case, spelling="%Verif.Ctx()|" + head))
+                        chk.count((head, "{}")); chk.count((head, "pipe"))
             if mcall is not None:
                 cases.append("(%s, %s, %s)" % (mcall, q_list([q_str(c) for c in ctxs], "str"),
                                                q_opt(obs, lambda o: q_list([q_str(x) for x in o], "str"), "list str")))
